@@ -401,7 +401,7 @@ func c09Run(w *core.W) {
 		w.Violate(core.Violation{Clause: "ENGINE-not-instrumented", Input: "", Detail: "no map-range site reported a call: this binary was not built with the map-range rewriting"})
 	}
 	// the same cases in a separate process of the PLAIN binary (real maps, real addresses)
-	plain := filepath.Join(verifDirProps(), ".build", "mc")
+	plain := filepath.Join(verifDirProps(), core.BuildDirName(), "mc")
 	cmd := exec.Command(plain, "c09digest", fmt.Sprint(w.Shard), fmt.Sprint(w.Of), w.Tier)
 	out, err := cmd.Output()
 	if err != nil {
